@@ -1,7 +1,170 @@
 import Atomman.Prelude
-open Atomman
+import Atomman.C09
+import Atomman.Generated.UnitTable
+import Atomman.Generated.LammpsStyle
+open Atomman Atomman.C09 Atomman.Gen
 
-/-- stub: replaced when the C09 model is built. -/
-def handleC09 (_toks : List String) : String := err "op"
+/-!
+  Line protocol of the C09 model driver (stateful: the state is the five base-unit scalings
+  `nu.m nu.kg nu.s nu.C nu.K`, initially all 1 = `reset_units('SI')`).  Strings travel as decimal code
+  points; numbers as exact rationals `p/q`.  The unit table is `Atomman.Gen.unitTable` (regenerated from
+  numericalunits on every run), the style tables `Atomman.Gen.styleTables` (from atomman/lammps/style.py).
 
-def main : IO Unit := runDriver handleC09
+    scales m kg s C K          → ok                      set the state
+    parse cp…                  → value | err:value        `uc.parse(str)`  under the state scalings
+    parseu cp…                 → value | err:value        `uc.parse(str)` incl. the 'scaled' rule
+    parsenone                  → 1                        `uc.parse(None)`
+    track cp…                  → v m kg s C K | err:value SI value and dimension (tracked algebra)
+    dim cp…                    → m kg s C K ival|- | err  dimension analysis alone (`dimAlg`)
+    unit cp…                   → value | err:value        `uc.unit[name]` under the state scalings
+    set n x1…xn cp…            → n values | err           `uc.set_in_units([x…], str)`
+    get n x1…xn cp…            → n values | err           `uc.get_in_units([x…], str)`
+    setlit cp…                 → value | err:value        `uc.set_literal(str)` (scalar literals)
+    radicand L M T E Q         → value | none             quantity under the square root of `reset_units`
+                                                          (each of L M T E Q: `-` or cp,cp,…)
+    reset L M T E Q r          → m kg s C K | err:value   base scalings after `reset_units(**kw)`, `r` = the root
+    nstyles                    → 8
+    style i                    → name n  then n × (label-with-_ | cp,cp,…)   generated style table i
+    styleok i                  → 0/1                      `styleDimsOK unitTable (styleTables[i])`
+    tableok                    → 0/1
+    nunits / uname i           → count / cp,cp,…          names of the generated unit table
+    halfnames                  → cp,… cp,… …              names outside the table (half-integral dimension)
+-/
+
+namespace C09Drv
+
+def chars? (toks : List String) : Option (List Char) :=
+  (parseNats? toks).map (·.map Char.ofNat)
+
+/-- `-` or `cp,cp,…`. -/
+def optName? (t : String) : Option (Option (List Char)) :=
+  if t = "-" then some none
+  else ((t.splitOn ",").mapM String.toNat?).map fun l => some (l.map Char.ofNat)
+
+def showName (n : List Char) : String := ",".intercalate (n.map fun c => toString c.toNat)
+
+def choice? : List String → Option Choice
+  | [l, m, t, e, q] =>
+    match optName? l, optName? m, optName? t, optName? e, optName? q with
+    | some l, some m, some t, some e, some q => some ⟨l, m, t, e, q⟩
+    | _, _, _, _, _ => none
+  | _ => none
+
+def rAlg : Alg Rat := numAlg ratToInt?
+
+def showO (o : Option Rat) : String :=
+  match o with
+  | some v => showRat v
+  | none => err "value"
+
+def showD (d : D5) : String := showInts [d.m, d.kg, d.s, d.c, d.k]
+
+def splitCount (toks : List String) : Option (List Rat × List Char) :=
+  match toks with
+  | n :: rest =>
+    match n.toNat? with
+    | some n =>
+      match parseRats? (rest.take n), chars? (rest.drop n) with
+      | some xs, some cs => if xs.length = n then some (xs, cs) else none
+      | _, _ => none
+    | none => none
+  | [] => none
+
+def step (sc : Scales Rat) (toks : List String) : Scales Rat × String :=
+  let env := envOf unitTable sc
+  match toks with
+  | "scales" :: rest =>
+    match parseRats? rest with
+    | some [m, kg, s, c, k] => (⟨m, kg, s, c, k⟩, "ok")
+    | _ => (sc, err "format")
+  | "parse" :: rest =>
+    match chars? rest with
+    | some cs => (sc, showO (parse rAlg env cs))
+    | none => (sc, err "format")
+  | "parseu" :: rest =>
+    match chars? rest with
+    | some cs => (sc, showO (parseUnits rAlg env (some cs)))
+    | none => (sc, err "format")
+  | ["parsenone"] => (sc, showO (parseUnits rAlg env none))
+  | "track" :: rest =>
+    match chars? rest with
+    | some cs =>
+      match parse (trackAlg ratToInt?) (envTracked unitTable) cs with
+      | some (v, d) => (sc, showRat v ++ " " ++ showD d)
+      | none => (sc, err "value")
+    | none => (sc, err "format")
+  | "dim" :: rest =>
+    match chars? rest with
+    | some cs =>
+      match parse dimAlg (envDim unitTable) cs with
+      | some dv => (sc, showD dv.dim ++ " " ++ (match dv.ival with | some n => toString n | none => "-"))
+      | none => (sc, err "value")
+    | none => (sc, err "format")
+  | "unit" :: rest =>
+    match chars? rest with
+    | some cs => (sc, showO (env cs))
+    | none => (sc, err "format")
+  | "set" :: rest =>
+    match splitCount rest with
+    | some (xs, cs) =>
+      match parseUnits rAlg env (some cs) with
+      | some f => (sc, showRats (setInUnits xs f))
+      | none => (sc, err "value")
+    | none => (sc, err "format")
+  | "get" :: rest =>
+    match splitCount rest with
+    | some (xs, cs) =>
+      match parseUnits rAlg env (some cs) with
+      | some f => if f = 0 then (sc, err "value") else (sc, showRats (getInUnits xs f))
+      | none => (sc, err "value")
+    | none => (sc, err "format")
+  | "setlit" :: rest =>
+    match chars? rest with
+    | some cs => (sc, showO (setLiteral rAlg env cs))
+    | none => (sc, err "format")
+  | "radicand" :: rest =>
+    match choice? rest with
+    | some ch =>
+      match radicand (envSI (K := Rat) unitTable) ch with
+      | some x => (sc, showRat x)
+      | none => (sc, "none")
+    | none => (sc, err "format")
+  | ["reset", l, m, t, e, q, r] =>
+    match choice? [l, m, t, e, q], parseRat? r with
+    | some ch, some r =>
+      match resetScales (envSI (K := Rat) unitTable) ch r with
+      | some s => (sc, showRats [s.m, s.kg, s.s, s.c, s.k])
+      | none => (sc, err "value")
+    | _, _ => (sc, err "format")
+  | ["nstyles"] => (sc, toString styleTables.length)
+  | ["style", i] =>
+    match i.toNat? with
+    | some i =>
+      match styleTables[i]? with
+      | some st =>
+        (sc, st.style ++ " " ++ toString st.entries.length ++ " " ++
+          " ".intercalate (st.entries.map fun le => (le.1.replace " " "_") ++ " " ++ showName le.2))
+      | none => (sc, err "value")
+    | none => (sc, err "format")
+  | ["styleok", i] =>
+    match i.toNat? with
+    | some i =>
+      match styleTables[i]? with
+      | some st => (sc, showBool (styleDimsOK unitTable st))
+      | none => (sc, err "value")
+    | none => (sc, err "format")
+  | ["tableok"] => (sc, showBool (tableOK unitTable))
+  | ["nunits"] => (sc, toString unitTable.length)
+  | ["uname", i] =>
+    match i.toNat? with
+    | some i =>
+      match unitTable[i]? with
+      | some e => (sc, showName e.name)
+      | none => (sc, err "value")
+    | none => (sc, err "format")
+  | ["halfnames"] => (sc, " ".intercalate (halfIntegralNames.map showName))
+  | _ => (sc, err "op")
+
+end C09Drv
+
+def main : IO Unit := runDriverS C09Drv.step ⟨1, 1, 1, 1, 1⟩
